@@ -9,6 +9,7 @@ import (
 
 	"github.com/anishathalye/porcupine"
 	exsrv "github.com/cybergarage/go-redis/examples/go-redisd/server"
+	"github.com/cybergarage/go-redis/redis"
 	"github.com/cybergarage/go-redis/vrt"
 	"verif/fw"
 	"verif/model"
@@ -108,9 +109,7 @@ func c16NewWorld(cs c16Case) *c16World {
 			m.Srv = ex.Server
 			// initial state through the store's own handler (before Start: single-threaded)
 			for _, c := range cs.Initial {
-				if c[0] == "SET" {
-					ex.Set(nil2conn(), c[1], c[2], setOptNone)
-				}
+				c16Prelude(ex, c)
 			}
 		} else {
 			store := srv.NewRefStore()
@@ -126,6 +125,70 @@ func c16NewWorld(cs c16Case) *c16World {
 }
 
 const c16Pass = "Secret1"
+
+// c16Prelude applies one command of the initial history to the example store
+// through the store's own handlers (before Start: single-threaded). Beside SET
+// it knows the commands with which a key of ANOTHER type is filled and emptied
+// again, so that the concurrent history starts on a key that had an earlier life.
+func c16Prelude(ex *exsrv.Server, c []string) {
+	conn := nil2conn()
+	var err error
+	switch c[0] {
+	case "SET":
+		_, err = ex.Set(conn, c[1], c[2], setOptNone)
+	case "RPUSH":
+		_, err = ex.RPush(conn, c[1], c[2:], redis.PushOption{})
+	case "LPUSH":
+		_, err = ex.LPush(conn, c[1], c[2:], redis.PushOption{})
+	case "LPOP", "RPOP":
+		n := 1
+		if len(c) > 2 {
+			n = int(atoiSafe(c[2]))
+		}
+		if c[0] == "LPOP" {
+			_, err = ex.LPop(conn, c[1], n)
+		} else {
+			_, err = ex.RPop(conn, c[1], n)
+		}
+	case "HSET":
+		_, err = ex.HSet(conn, c[1], c[2], c[3], redis.HSetOption{})
+	case "HDEL":
+		_, err = ex.HDel(conn, c[1], c[2:])
+	case "SADD":
+		_, err = ex.SAdd(conn, c[1], c[2:])
+	case "SREM":
+		_, err = ex.SRem(conn, c[1], c[2:])
+	case "ZADD":
+		_, err = ex.ZAdd(conn, c[1], []*redis.ZSetMember{{Score: float64(atoiSafe(c[2])), Member: c[3]}}, redis.ZAddOption{})
+	case "ZREM":
+		_, err = ex.ZRem(conn, c[1], c[2:])
+	case "DEL":
+		_, err = ex.Del(conn, c[1:])
+	default:
+		panic("c16Prelude: unknown command " + c[0])
+	}
+	if err != nil {
+		panic(fmt.Sprintf("c16Prelude %v: %v", c, err))
+	}
+}
+
+// c16Afterlives: initial histories after which key k (and for the last ones j)
+// is absent by Redis semantics but was of another type before: a container that
+// lost its last element does not exist.
+func c16Afterlives() map[string][][]string {
+	return map[string][][]string{
+		"list-lpop1":     {{"RPUSH", "k", "a"}, {"LPOP", "k"}},
+		"list-rpop1":     {{"RPUSH", "k", "a", "b"}, {"RPOP", "k"}, {"RPOP", "k"}},
+		"list-lpop-n":    {{"LPUSH", "k", "a", "b"}, {"LPOP", "k", "2"}},
+		"list-lpop-over": {{"RPUSH", "k", "a"}, {"LPOP", "k", "3"}},
+		"hash-hdel":      {{"HSET", "k", "f", "v"}, {"HDEL", "k", "f"}},
+		"set-srem":       {{"SADD", "k", "m"}, {"SREM", "k", "m"}},
+		"zset-zrem":      {{"ZADD", "k", "1", "m"}, {"ZREM", "k", "m"}},
+		"string-del":     {{"SET", "k", "5"}, {"DEL", "k"}},
+		"both-keys-list": {{"RPUSH", "k", "a"}, {"RPUSH", "j", "b"}, {"LPOP", "j"}, {"RPOP", "k"}},
+		"j-hash-k-set":   {{"HSET", "j", "f", "v"}, {"SADD", "k", "m"}, {"SREM", "k", "m"}, {"HDEL", "j", "f"}},
+	}
+}
 
 func c16Explorer(cs c16Case, bound int) *sched.Explorer {
 	x := &sched.Explorer{Bound: bound}
@@ -280,6 +343,30 @@ func c16Run(c *fw.Ctx) {
 			}
 		}
 	}
+	// the shared keys had an earlier life as a list / hash / set / sorted set that was
+	// emptied again (or a string that was deleted): they are absent, and every command
+	// of the alphabet must treat them so under every interleaving
+	var pairsAfter []scen
+	{
+		lives := c16Afterlives()
+		ln := make([]string, 0, len(lives))
+		for k := range lives {
+			ln = append(ln, k)
+		}
+		sort.Strings(ln)
+		for _, store := range []string{"example", "reference"} {
+			for _, life := range ln {
+				for i, a := range names {
+					for _, b := range names[i:] {
+						if store == "reference" && !(a == b) {
+							continue // the reference store starts from the model's state: the diagonal only
+						}
+						pairsAfter = append(pairsAfter, scen{c16Case{Store: store, Initial: lives[life], Ops: [][][]string{{variant(kinds[a], 0)}, {variant(kinds[b], 1)}}}, store + "|after-" + life + "|" + a + "+" + b})
+					}
+				}
+			}
+		}
+	}
 	// the same pairs on a server that requires a password (every client AUTHs first):
 	// the path a command takes must not depend on how the connection got authorized
 	var pairsPw []scen
@@ -341,13 +428,14 @@ func c16Run(c *fw.Ctx) {
 		}
 		return true
 	}
-	if !phase("p1_pairs_bound2", pairs, 2) || !phase("p1_pairs_requirepass_bound2", pairsPw, 2) || !phase("p1_pairs_empty_value_bound1", pairsEmpty, 1) || !restarts("p1_restart_in_flight_bound1", 1) || !c.Thorough() {
+	if !phase("p1_pairs_bound2", pairs, 2) || !phase("p1_pairs_requirepass_bound2", pairsPw, 2) || !phase("p1_pairs_empty_value_bound1", pairsEmpty, 1) || !phase("p1_pairs_after_earlier_life_bound1", pairsAfter, 1) || !restarts("p1_restart_in_flight_bound1", 1) || !c.Thorough() {
 		return
 	}
 	if !restarts("p2_restart_in_flight_bound2", 2) {
 		return
 	}
 	_ = phase("p2_pairs_bound3", pairs, 3) &&
+		phase("p2_pairs_after_earlier_life_bound2", pairsAfter, 2) &&
 		phase("p3_pairs_then_reads_bound2", pairReads, 2) &&
 		phase("p4_triples_bound2", triples, 2) &&
 		phase("p5_pairs_bound4", pairs, 4) &&
@@ -430,7 +518,7 @@ func init() {
 	fw.Register(&fw.Prop{
 		ID:          "C16",
 		Level:       "model_checking",
-		Rule:        "clients in DIFFERENT databases of the bundled store (5 orders of first use) get the replies they would get alone (bound 1); for every unordered pair of operation kinds from {GET, SET, SETNX, GETSET, INCR, DECRBY, APPEND, MSETNX, DEL, DEL k k, INCRBY 0} (thorough: also triples, and pairs followed by reads): 2 (3) clients issue them concurrently on one shared key (MSETNX over two keys, one shared), initial state absent or '1' (bound 1: also the empty string; and once more on a server with requirepass, every client sending AUTH first), through the real accept loop and connection goroutines, against (a) a reference store whose primitives are atomic steps each preceded by a scheduling point and (b) the instrumented example store (sync.Map operations are scheduling points); every schedule within deviation bound 2; plus 144 held-command scenarios (Restart, Stop+Start or nothing issued while a composite command of client A is held between its read and its first write by a slow store, client B writing the same key through the restarted server, then the held handler released; A's lost reply counts as executed-or-not; deviation bound 1, thorough 2); thorough continues in phases, each complete only when its <phase>_done counter equals <phase>_scenarios: pairs at bound 3, pairs followed by a read on each side at bound 2, triples (reference store) at bound 2, pairs at bound 4, pairs+reads at bound 3, triples at bound 3; each complete execution yields a client-side history (invocation/response stamped with the scheduler's step counter) to which a final read-out of every key by a fresh connection is appended; porcupine checks the whole history for linearizability against the Redis model. A scenario is non-trivial when its schedules produce more than one distinct reply vector.",
+		Rule:        "clients in DIFFERENT databases of the bundled store (5 orders of first use) get the replies they would get alone (bound 1); for every unordered pair of operation kinds from {GET, SET, SETNX, GETSET, INCR, DECRBY, APPEND, MSETNX, DEL, DEL k k, INCRBY 0} (thorough: also triples, and pairs followed by reads): 2 (3) clients issue them concurrently on one shared key (MSETNX over two keys, one shared), initial state absent or '1' (bound 1: also the empty string, and 10 EARLIER LIVES of the shared keys - a list emptied by LPOP / RPOP / a counted or oversized pop, a hash emptied by HDEL, a set by SREM, a sorted set by ZREM, a deleted string, both keys lists, one a hash and one a set - applied through the store's own handlers before the server starts, after which the keys are absent: 660 example-store and 110 reference-store pair scenarios; and once more on a server with requirepass, every client sending AUTH first), through the real accept loop and connection goroutines, against (a) a reference store whose primitives are atomic steps each preceded by a scheduling point and (b) the instrumented example store (sync.Map operations are scheduling points); every schedule within deviation bound 2; plus 144 held-command scenarios (Restart, Stop+Start or nothing issued while a composite command of client A is held between its read and its first write by a slow store, client B writing the same key through the restarted server, then the held handler released; A's lost reply counts as executed-or-not; deviation bound 1, thorough 2); thorough continues in phases, each complete only when its <phase>_done counter equals <phase>_scenarios: pairs at bound 3, earlier-life pairs at bound 2, pairs followed by a read on each side at bound 2, triples (reference store) at bound 2, pairs at bound 4, pairs+reads at bound 3, triples at bound 3; each complete execution yields a client-side history (invocation/response stamped with the scheduler's step counter) to which a final read-out of every key by a fresh connection is appended; porcupine checks the whole history for linearizability against the Redis model. A scenario is non-trivial when its schedules produce more than one distinct reply vector.",
 		Assumptions: []string{"sequentially consistent interleavings", "histories of more than 3 clients or 2 operations per client are not explored"},
 		Run:         c16Run,
 		Replay:      c16Replay,
